@@ -156,6 +156,20 @@ static int     nvs = 0;
  * currently open (what POSIX does), so a closed connection's number comes back for the next socket; the layer
  * translates at the boundary.  A correct library behaves identically under both numberings. */
 static int fdreuse = 0;
+/* numbers that carry a WRITE event in the ares_process_fds() call in progress are not handed out again before the call
+ * returns: a stale "writable" for the closed socket would otherwise be taken for the new (still connecting) one, which
+ * is an artefact of descriptor-number reuse inside one poll round, not a property of the library under test */
+static int wr_reserved[64], nwr_reserved = 0;
+static int is_wr_reserved(int k)
+{
+  int i;
+  for (i = 0; i < nwr_reserved; i++) {
+    if (wr_reserved[i] == k) {
+      return 1;
+    }
+  }
+  return 0;
+}
 static int slot_real[MAXVS];  /* number the library knows slot i by */
 static int real_slot[MAXVS];  /* slot currently open under number FD_BASE + k, or -1 */
 static int to_logical(ares_socket_t real)
@@ -308,7 +322,7 @@ static ares_socket_t v_socket(int af, int type, int protocol, void *ud)
   {
     int k = nvs;
     if (fdreuse) {
-      for (k = 0; k < MAXVS && real_slot[k] >= 0; k++) {
+      for (k = 0; k < MAXVS && (real_slot[k] >= 0 || is_wr_reserved(k)); k++) {
       }
     }
     slot_real[nvs] = FD_BASE + k;
@@ -1503,10 +1517,14 @@ int main(void)
         if (e) {
           evs[n].fd     = to_real(FD_BASE + i);
           evs[n].events = e;
+          if ((e & ARES_FD_EVENT_WRITE) && nwr_reserved < 64) {
+            wr_reserved[nwr_reserved++] = (int)evs[n].fd - FD_BASE;
+          }
           n++;
         }
       }
       ares_process_fds(chan, evs, n, ARES_PROCESS_FLAG_NONE);
+      nwr_reserved = 0;
     } else if (!strcmp(op, "tick")) {
       ares_process_fd(chan, ARES_SOCKET_BAD, ARES_SOCKET_BAD);
     } else if (!strcmp(op, "pendingwrite")) {
